@@ -1,8 +1,10 @@
 //! qv: runtime-monitoring harness for quinn (see /verif/DESIGN.md)
 pub mod app;
 pub mod cfg;
+pub mod check;
 pub mod mon;
 pub mod nullcrypto;
+pub mod scen;
 #[cfg(feature = "real")]
 pub mod realcrypto;
 pub mod util;
